@@ -1758,7 +1758,6 @@ func zeroConst(t types.Type) *ssa.Const {
 
 var debugCalls = os.Getenv("VERIF_DEBUG_CALLS") != ""
 
-
 // mapsDeleteFunc models a call of maps.DeleteFunc whose predicate is a closure of the module (see exec).
 func (e *PPA) mapsDeleteFunc(fr *Frame, b *ssa.BasicBlock, i int, in *ssa.Call, st *State, k cont) bool {
 	g := staticCallee(&in.Call)
